@@ -22,7 +22,7 @@ for p in props:
             "evidence_file": "evidence/%s.json" % pid,
             "replay_cmd_template": "python3 vcheck.py --replay {path}",
             "engine": "vcheck",
-            "level_claimed": {"category": "proof",
+            "level_claimed": {"category": "proof" if any(u["kind"] == "complete" for u in us) else "model_checking",
                               "text": meta.get("text", "contracts on the real functions discharged by Kani/CBMC (complete over the stated machine domains) and Verus; bounded stand-ins are reported separately and not counted"),
                               "design_ref": "DESIGN.md section 3, %s" % pid},
             "level_note": meta.get("note", "") + (" %d of %d units are bounded stand-ins (listed in evidence.bounded_units)." % (nb, len(us))),
